@@ -1223,7 +1223,7 @@ Proof.
   assert (NE : s_ "p2s" <> s_ "p2c") by (vm_compute; discriminate).
   destruct (dmem hs (s_ "p2s")) eqn:MS; destruct (dmem hs (s_ "p2c")) eqn:MC; cbn [negb] in H.
   - (* both given by the caller: nothing is added *)
-    inv_bind H. match type of H with (let '(_, _, _) := ?x in _) = _ => destruct x as [[p1 r1] p2sv] end.
+    inv_bind H. match goal with E : _ = Ok ?x |- _ => is_var x; destruct x as [[p1 r1] p2sv] end.
     match goal with E : bind (to_bytes_pv _) _ = Ok _ |- _ => inv_bind E; inv_bind E; inversion E; subst p1 r1 p2sv end.
     cbn [bind] in H. cbv beta iota zeta in H.
     inv_bind H. inv_bind H. inv_bind H. inversion H; subst.
@@ -1231,22 +1231,21 @@ Proof.
     match goal with u : unit |- _ => destruct u end.
     do 3 eexists. repeat split; eauto.
   - (* p2c missing: one member added *)
-    inv_bind H. match type of H with (let '(_, _, _) := ?x in _) = _ => destruct x as [[p1 r1] p2sv] end.
+    inv_bind H. match goal with E : _ = Ok ?x |- _ => is_var x; destruct x as [[p1 r1] p2sv] end.
     match goal with E : bind (to_bytes_pv _) _ = Ok _ |- _ => inv_bind E; inv_bind E; inversion E; subst p1 r1 p2sv end.
-    inv_bind H. match type of H with (let '(_, _, _) := ?x in _) = _ => destruct x as [[pb rb] pc] end.
-    match goal with E : bind (add_header _ _ _ _ _) _ = Ok _ |- _ => inv_bind E; inversion E; subst end.
-    match goal with pr : (dict * recip)%type |- _ => destruct pr as [pa ra] end.
-    cbv beta iota zeta in H. simpl fst in *. simpl snd in *.
+    inv_bind H. match goal with E : _ = Ok ?x |- _ => is_var x; destruct x as [[pb rb] pc] end.
+    match goal with E : bind (add_header _ _ _ _ _) _ = Ok _ |- _ => apply bind_ok in E; destruct E as [prx [AHx Ex]]; inversion Ex; subst; clear Ex end.
+    cbv beta iota zeta in H.
     inv_bind H. inv_bind H. inv_bind H. inversion H; subst.
     match goal with u : unit |- _ => destruct u end.
     match goal with AH : add_header _ _ _ _ _ = Ok _ |- _ => rename AH into A end.
     pose proof (add_header_get s prot unprot r _ _ p2 r2 hs' Wp Wu Wh Hc A H') as Gc.
     assert (Goth : forall k, s_ "p2c" <> k -> dget hs' k = dget hs k).
-    { intros k N. eapply add_header_other; eauto. }
+    { intros k N. eapply (add_header_other s prot unprot r _ _ p2 r2 hs hs' k Wp Wu Wh Hc A Hh H' N). }
     destruct (add_header_wf s prot r _ _ p2 r2 Wp Wh Hc A) as [_ [_ [_ [RK _]]]].
     assert (PS : hget hs' "p2s" = hget hs "p2s") by (unfold hget; rewrite (Goth (asc "p2s")); [reflexivity | vm_compute; discriminate]).
     do 3 eexists. split.
-    { unfold dmem in *. rewrite (Goth (s_ "p2s")); [exact MS | vm_compute; discriminate]. }
+    { unfold dmem, s_ in *. rewrite (Goth (asc "p2s")); [exact MS | vm_compute; discriminate]. }
     split; [unfold dmem, s_ in *; rewrite Gc; reflexivity |].
     split; [rewrite PS; eassumption |]. split; [eassumption |]. split; [assumption |].
     split; [unfold hget at 1; unfold s_ in Gc; rewrite Gc; eassumption |].
@@ -1256,19 +1255,19 @@ Proof.
     + intro N. apply add_header_json_prot in A; [tauto | exact N].
     + intros SC k N1 N2. subst s. unfold add_header in A. inversion A; subst. apply dget_dset_other. exact N2.
   - (* p2s missing *)
-    inv_bind H. match type of H with (let '(_, _, _) := ?x in _) = _ => destruct x as [[p1 r1] p2sv] end.
-    match goal with E : bind (add_header _ _ _ _ _) _ = Ok _ |- _ => inv_bind E; inversion E; subst end.
+    inv_bind H. match goal with E : _ = Ok ?x |- _ => is_var x; destruct x as [[p1 r1] p2sv] end.
+    match goal with E : bind (add_header _ _ _ _ _) _ = Ok _ |- _ => apply bind_ok in E; destruct E as [prx [AHx Ex]]; inversion Ex; subst; clear Ex end.
     cbn [bind] in H. cbv beta iota zeta in H.
     inv_bind H. inv_bind H. inv_bind H. inversion H; subst.
     match goal with u : unit |- _ => destruct u end.
     match goal with AH : add_header _ _ _ _ _ = Ok _ |- _ => rename AH into A end.
     pose proof (add_header_get s prot unprot r _ _ p2 r2 hs' Wp Wu Wh Hc A H') as Gs.
     assert (Goth : forall k, s_ "p2s" <> k -> dget hs' k = dget hs k).
-    { intros k N. eapply add_header_other; eauto. }
+    { intros k N. eapply (add_header_other s prot unprot r _ _ p2 r2 hs hs' k Wp Wu Wh Hc A Hh H' N). }
     destruct (add_header_wf s prot r _ _ p2 r2 Wp Wh Hc A) as [_ [_ [_ [RK _]]]].
     assert (PC : hget hs' "p2c" = hget hs "p2c") by (unfold hget; rewrite (Goth (asc "p2c")); [reflexivity | vm_compute; discriminate]).
     exists (b64e (d_p2s d)), (d_p2s d). eexists. split; [unfold dmem, s_ in *; rewrite Gs; reflexivity |].
-    split. { unfold dmem in *. rewrite (Goth (s_ "p2c")); [exact MC | vm_compute; discriminate]. }
+    split. { unfold dmem, s_ in *. rewrite (Goth (asc "p2c")); [exact MC | vm_compute; discriminate]. }
     split; [unfold hget; unfold s_ in Gs; rewrite Gs; cbn [to_bytes_pv]; apply utf8_b64e; exact BS |].
     split; [apply b64_roundtrip; exact BS |]. split; [assumption |].
     split; [rewrite PC; eassumption |]. split; [eassumption |]. split; [exact RK |].
@@ -1277,10 +1276,10 @@ Proof.
     + intro N. apply add_header_json_prot in A; [tauto | exact N].
     + intros SC k N1 N2. subst s. unfold add_header in A. inversion A; subst. apply dget_dset_other. exact N1.
   - (* both missing: salt input drawn, default count *)
-    inv_bind H. match type of H with (let '(_, _, _) := ?x in _) = _ => destruct x as [[p1 r1] p2sv] end.
-    match goal with E : bind (add_header _ _ _ _ _) _ = Ok _ |- _ => inv_bind E; inversion E; subst end.
-    inv_bind H. match type of H with (let '(_, _, _) := ?x in _) = _ => destruct x as [[pb rb] pc] end.
-    match goal with E : bind (add_header _ _ _ _ _) _ = Ok (pb, rb, pc) |- _ => inv_bind E; inversion E; subst end.
+    inv_bind H. match goal with E : _ = Ok ?x |- _ => is_var x; destruct x as [[p1 r1] p2sv] end.
+    match goal with E : bind (add_header _ _ _ _ _) _ = Ok _ |- _ => apply bind_ok in E; destruct E as [prx [AHx Ex]]; inversion Ex; subst; clear Ex end.
+    inv_bind H. match goal with E : _ = Ok ?x |- _ => is_var x; destruct x as [[pb rb] pc] end.
+    match goal with E : bind (add_header _ _ _ _ _) _ = Ok (pb, rb, pc) |- _ => apply bind_ok in E; destruct E as [pry [AHy Ey]]; inversion Ey; subst; clear Ey end.
     cbv beta iota zeta in H.
     inv_bind H. inv_bind H. inv_bind H. inversion H; subst.
     match goal with u : unit |- _ => destruct u end.
@@ -1304,3 +1303,181 @@ Proof.
 Qed.
 
 End SinglePbes2.
+
+Section SinglePbes2Rt.
+Variable O : oracles.
+Hypothesis C : contracts O.
+Variable g : registry.
+
+Theorem single_rt_pbes2 o d x r :
+  e_recips o = [r] -> perform_encrypt O g o d = Ok x ->
+  wf (e_prot o) -> hdr_wf (e_unprot o) -> hdr_wf (r_header r) -> (e_ser o = Compact -> r_header r = PNone) ->
+  (forall hs', o_check_header O (PDict hs') true = Ok tt) ->
+  (exists r' hs', x_recips x = [r'] /\ headers (e_ser o) (x_prot x) (e_unprot o) (r_header r') = Ok hs') ->
+  (forall hs algv a,
+     headers (e_ser o) (e_prot o) (e_unprot o) (r_header r) = Ok hs -> hitem hs "alg" = Ok algv ->
+     get_alg g algv = Ok a ->
+     ea_direct a = false /\ is_agreement a = false /\
+     fam_is (ea_family a) "RSA" = false /\ fam_is (ea_family a) "AESKW" = false /\
+     fam_is (ea_family a) "AESGCMKW" = false /\ fam_is (ea_family a) "PBES2" = true) ->
+  bytes_ok (match d_rec d with d0 :: _ => d_p2s d0 | [] => [] end) = true ->
+  (forall encv e, hitem (e_prot o) "enc" = Ok encv -> get_enc g encv = Ok e ->
+     lenN (d_civ d) * 8 = ee_iv_size e /\ lenN (d_cek d) * 8 = ee_cek_size e) ->
+  perform_decrypt O g (obj_of o x) = Ok (e_plain o).
+Proof.
+  intros R H Wp Wu Wh Hc CH [r' [hs' [XR' H']]] FAM BS SZ.
+  destruct (perform_encrypt_single_inv O g o d x r R H) as [encv [e [hs [algv [a [He [Ge [Hh [Hck [Ha [Ga K]]]]]]]]]]].
+  destruct (FAM hs algv a Hh Ha Ga) as [ND [NA [F0 [F1 [F2 F3]]]]].
+  destruct (K NA ND) as [prot2 [r2 [ek [EC [XP [XR XC]]]]]].
+  destruct (SZ encv e He Ge) as [Liv Lcek].
+  set (dr := match d_rec d with d0 :: _ => d0 | [] => no_rdraw end) in *.
+  assert (BS' : bytes_ok (d_p2s dr) = true).
+  { unfold dr. destruct (d_rec d); [reflexivity | exact BS]. }
+  rewrite XR in XR'. inversion XR'; subst r'. clear XR'.
+  rewrite XP in H'. change (r_header (set_ek r2 ek)) with (r_header r2) in H'.
+  destruct (pbes2_encrypt_inv O a (e_ser o) (e_prot o) (e_unprot o) r dr (d_cek d) prot2 r2 ek hs hs'
+              F0 F1 F2 F3 Wp Wu Wh Hc BS' EC Hh H')
+    as [sb [p2s [kek [M1 [M2 [TB [BD [CK [KEK [W [RK [Goth [PJ PC]]]]]]]]]]]]].
+  assert (Halg : hitem hs' "alg" = Ok algv).
+  { unfold hitem in *. rewrite (Goth (asc "alg")); [exact Ha | vm_compute; discriminate | vm_compute; discriminate]. }
+  assert (Henc : hitem prot2 "enc" = Ok encv).
+  { unfold hitem in *. destruct (e_ser o) eqn:S.
+    - rewrite (PC eq_refl (asc "enc")); [exact He | vm_compute; discriminate | vm_compute; discriminate].
+    - rewrite PJ by discriminate. exact He.
+    - rewrite PJ by discriminate. exact He. }
+  assert (DK : decrypt_cek O a hs' (set_ek r2 ek) = Ok (d_cek d)).
+  { eapply (cek_rt_pbes2 O C a hs' (set_ek r2 ek) (d_cek d) ek kek p2s sb); eauto.
+    - change (r_key (set_ek r2 ek)) with (r_key r2). rewrite RK. exact CK.
+    - change (r_key (set_ek r2 ek)) with (r_key r2). rewrite RK. exact KEK. }
+  eapply message_rt; eauto.
+  - rewrite XP. exact Henc.
+  - rewrite XR. cbn [recip_loop].
+    change (j_ser (obj_of o x)) with (e_ser o). change (j_prot (obj_of o x)) with (x_prot x).
+    change (j_unprot (obj_of o x)) with (e_unprot o). change (j_tag (obj_of o x)) with (x_tag x).
+    rewrite XP. change (r_header (set_ek r2 ek)) with (r_header r2). rewrite H'. cbn [bind].
+    rewrite (CH hs'). cbn [bind]. rewrite Halg. cbn [bind]. rewrite Ga. cbn [bind].
+    unfold decrypt_recipient. rewrite ND, NA. rewrite DK. rewrite XC. reflexivity.
+  - rewrite XC. exact Lcek.
+Qed.
+
+End SinglePbes2Rt.
+
+(* ================= end-to-end (object level) for one recipient: Key Agreement with Key Wrapping ===== *)
+Section SingleEcdhKw.
+Variable O : oracles.
+Hypothesis C : contracts O.
+Variable g : registry.
+
+Lemma perform_encrypt_ecdh_kw_inv o d x r :
+  e_recips o = [r] -> perform_encrypt O g o d = Ok x ->
+  exists encv e hs algv a,
+    hitem (e_prot o) "enc" = Ok encv /\ get_enc g encv = Ok e /\
+    headers (e_ser o) (e_prot o) (e_unprot o) (r_header r) = Ok hs /\
+    o_check_header O (PDict hs) false = Ok tt /\
+    hitem hs "alg" = Ok algv /\ get_alg g algv = Ok a /\
+    (is_agreement a = true -> ea_direct a = false ->
+     exists eph epkd prot1 r1 hs1 auk ek,
+       check_key_type a (r_key r) = Ok tt /\ r_eph r = Some (eph, epkd) /\
+       add_header (e_ser o) (e_prot o) r (s_ "epk") epkd = Ok (prot1, r1) /\
+       headers (e_ser o) prot1 (e_unprot o) (r_header r1) = Ok hs1 /\
+       enc_auk O a e hs1 r1 (if ea_tag_aware a then Some (x_tag x) else None) = Ok auk /\
+       kw_wrap_cek O (key_size_of a) (d_cek d) auk = Ok ek /\
+       x_cek x = d_cek d /\ x_prot x = prot1 /\ x_recips x = [set_ek r1 ek]).
+Proof.
+  intros R H. unfold perform_encrypt in H. rewrite R in H.
+  inv_bind H. rename x0 into encv. inv_bind H. rename x0 into e.
+  inv_bind H. destruct x0 as [[prot cek] acc].
+  inv_bind H. inv_bind H. inv_bind H.
+  match goal with ctg : (bytes * bytes)%type |- _ => destruct ctg as [ct tag] end.
+  inv_bind H.
+  inversion H; subst; clear H. simpl.
+  match goal with E1 : pre_loop _ _ _ _ _ _ _ _ _ _ _ _ = Ok _ |- _ => rename E1 into PL end.
+  match goal with E1 : post_loop _ _ _ _ _ _ _ _ = Ok _ |- _ => rename E1 into QL end.
+  simpl in PL.
+  destruct (prepare_recipient_algorithm O g (e_ser o) (e_prot o) (e_unprot o) r) as [[[a prot1] r1]|] eqn:P; [| discriminate].
+  simpl in PL.
+  unfold prepare_recipient_algorithm in P.
+  inv_bind P. inv_bind P. inv_bind P. inv_bind P.
+  match goal with
+  | Hh : headers _ _ _ _ = Ok ?hs, Hc : o_check_header O (PDict ?hs) false = Ok ?u,
+    Ha : hitem ?hs "alg" = Ok ?algv, Ga : get_alg g ?algv = Ok ?a' |- _ =>
+      destruct u; exists encv, e, hs, algv, a'
+  end.
+  repeat (split; [assumption |]).
+  intros AG D. rewrite AG in P. inv_bind P.
+  match goal with E : _ = Ok ?pr |- _ => is_var pr; destruct pr as [pp rr] end.
+  inversion P; subst. clear P. simpl in *.
+  rewrite D, AG in PL. inversion PL; subst. clear PL.
+  unfold prepare_ephemeral_key in *.
+  match goal with E : bind (check_key_type _ _) _ = Ok _ |- _ => apply bind_ok in E; destruct E as [u [CK AH]] end.
+  destruct u.
+  destruct (r_eph r) as [[eph epkd]|] eqn:RE; [| discriminate].
+  simpl in AH.
+  simpl in QL.
+  destruct (headers (e_ser o) prot (e_unprot o) (r_header r1)) as [hs1|] eqn:H1; [| discriminate].
+  simpl in QL.
+  destruct (enc_auk O a e hs1 r1 (if ea_tag_aware a then Some tag else None)) as [auk|] eqn:EA; [| discriminate].
+  simpl in QL.
+  destruct (kw_wrap_cek O (key_size_of a) (d_cek d) auk) as [ek|] eqn:W; [| discriminate].
+  simpl in QL. inversion QL; subst.
+  exists eph, epkd, prot, r1, hs1, auk, ek. repeat split; auto.
+Qed.
+
+Theorem single_rt_ecdh_kw o d x r :
+  e_recips o = [r] -> perform_encrypt O g o d = Ok x ->
+  wf (e_prot o) -> hdr_wf (e_unprot o) -> hdr_wf (r_header r) -> (e_ser o = Compact -> r_header r = PNone) ->
+  (forall hs', o_check_header O (PDict hs') true = Ok tt) ->
+  (forall hs algv a,
+     headers (e_ser o) (e_prot o) (e_unprot o) (r_header r) = Ok hs -> hitem hs "alg" = Ok algv ->
+     get_alg g algv = Ok a -> ea_direct a = false /\ is_agreement a = true) ->
+  (forall eph epkd, r_eph r = Some (eph, epkd) ->
+     o_import O (k_kty (r_key r)) epkd = Ok (pubk eph) /\ k_kty eph = k_kty (r_key r)) ->
+  k_priv (r_key r) = true ->
+  (forall sk, r_sender r = Some sk -> k_kty sk = k_kty (r_key r)) ->
+  (forall encv e, hitem (e_prot o) "enc" = Ok encv -> get_enc g encv = Ok e ->
+     lenN (d_civ d) * 8 = ee_iv_size e /\ lenN (d_cek d) * 8 = ee_cek_size e) ->
+  perform_decrypt O g (obj_of o x) = Ok (e_plain o).
+Proof.
+  intros R H Wp Wu Wh Hc CH FAM IMP PRIV SKT SZ.
+  destruct (perform_encrypt_ecdh_kw_inv o d x r R H) as [encv [e [hs [algv [a [He [Ge [Hh [Hck [Ha [Ga K]]]]]]]]]]].
+  destruct (FAM hs algv a Hh Ha Ga) as [D AG].
+  destruct (K AG D) as [eph [epkd [prot1 [r1 [hs1 [auk [ek [CK [RE [AH [H1 [EA [W [XC [XP XR]]]]]]]]]]]]]]].
+  destruct (IMP eph epkd RE) as [IM KT].
+  destruct (SZ encv e He Ge) as [Liv Lc].
+  destruct (add_header_wf (e_ser o) (e_prot o) r (s_ "epk") epkd prot1 r1 Wp Wh Hc AH)
+    as [Wp1 [Wh1 [Hc1 [RK [RS [REK RPH]]]]]].
+  pose proof (add_header_get (e_ser o) (e_prot o) (e_unprot o) r (s_ "epk") epkd prot1 r1 hs1 Wp Wu Wh Hc AH H1) as Gepk.
+  assert (Halg : hitem hs1 "alg" = Ok algv).
+  { unfold hitem in *.
+    rewrite (add_header_other (e_ser o) (e_prot o) (e_unprot o) r (s_ "epk") epkd prot1 r1 hs hs1 (asc "alg") Wp Wu Wh Hc AH Hh H1);
+      [exact Ha | vm_compute; discriminate]. }
+  assert (Henc : hitem prot1 "enc" = Ok encv).
+  { unfold hitem in *. destruct (e_ser o) eqn:S.
+    - unfold add_header in AH. inversion AH; subst. rewrite dget_dset_other by (vm_compute; discriminate). exact He.
+    - apply add_header_json_prot in AH; [| discriminate]. destruct AH as [-> _]. exact He.
+    - apply add_header_json_prot in AH; [| discriminate]. destruct AH as [-> _]. exact He. }
+  assert (DA : dec_auk O a e hs1 r1 (if ea_tag_aware a then Some (x_tag x) else None) = Ok auk).
+  { eapply (auk_rt O C a e hs1 r1 _ auk eph epkd); eauto.
+    - rewrite RPH. exact RE.
+    - rewrite RK. exact IM.
+    - rewrite RK. exact PRIV.
+    - rewrite RK. exact KT.
+    - intros sk Hs. rewrite RK. apply SKT. rewrite <- RS. exact Hs.
+    - rewrite RK. exact CK. }
+  eapply message_rt; eauto.
+  - rewrite XP. exact Henc.
+  - rewrite XR. cbn [recip_loop].
+    change (j_ser (obj_of o x)) with (e_ser o). change (j_prot (obj_of o x)) with (x_prot x).
+    change (j_unprot (obj_of o x)) with (e_unprot o). change (j_tag (obj_of o x)) with (x_tag x).
+    rewrite XP. change (r_header (set_ek r1 ek)) with (r_header r1). rewrite H1. cbn [bind].
+    rewrite (CH hs1). cbn [bind]. rewrite Halg. cbn [bind]. rewrite Ga. cbn [bind].
+    unfold decrypt_recipient. rewrite D, AG.
+    assert (DA' : (if ea_tag_aware a then dec_auk O a e hs1 (set_ek r1 ek) (Some (x_tag x))
+                   else dec_auk O a e hs1 (set_ek r1 ek) None) = Ok auk).
+    { rewrite !dec_auk_set_ek. destruct (ea_tag_aware a); exact DA. }
+    rewrite DA'. cbn [bind need_ek r_ek set_ek].
+    rewrite (kw_rt O C _ _ _ _ W). rewrite XC. reflexivity.
+  - rewrite XC. exact Lc.
+Qed.
+
+End SingleEcdhKw.
